@@ -522,6 +522,19 @@ def run_model_shard(prop: str, shard: Dict[str, Any], rep: Report) -> None:
     if prop == "C09" and P.has("synthetic") and shard.get("synthetic", True):
         mon.report(None, P.call("synthetic", rng, tier))
 
+    if prop == "C08":
+        # another size of the same environment is built and traced first (it shares the parameter-free reward objects with
+        # the environment under test, see jmon.envs._one): the returns judged below must not depend on that
+        try:
+            for oc in sorted(E.configs(name, "quick"), key=lambda c_: c_["id"] == "default"):  # non-default sizes first
+                if oc["id"] != cfg["id"] and not any(k in oc for k in ("custom", "make_id", "light", "deep")):
+                    other = E.build(name, oc)
+                    os_, ot_ = jax.jit(other.reset)(jax.random.PRNGKey(11))
+                    jax.jit(other.step)(os_, A.as_action(other.action_spec, A.sample_masked(name, other.action_spec, A.get_mask(ot_), rng)[0]))
+                    rep.count("sibling_size_traced_first")
+                    break
+        except Exception as e:
+            rep.notes.append(f"sibling of {name} could not be built: {e!r}"[:200])
     twin = None
     if prop == "C08" and name in DENSE_SPARSE and "make_id" not in cfg and "custom" not in cfg:
         # (configurations built through jumanji.make or with a user reward function have no "other" reward function to swap in)
